@@ -13,8 +13,8 @@ Property C05 on the MODEL OF THE SEARCH (`Model/CompilerSearch.lean`):
   `compile` through one of the returns guarded by `_nested_commutator_result(G) == target`
   (`W = I`; the three candidates of `V ≠ I`; `_case3_best_reordering`) is non-empty and its nested
   commutator in the documented orientation reads as the target — never zero, never another string.
-  (Membership in the universal set is NOT implied for the `V ≠ I` / `V = I` returns: `subsystem_compiler`
-  may insert helpers from outside; no such case occurs for `N ≤ 6`, but it is not excluded by a proof.)
+  (Membership in the universal set for the `V ≠ I` / `V = I` returns is proved in `Properties/C05Valid.lean`:
+  `C05_verified_return_valid` — a sequence that passes the self-check never contains a helper from outside.)
 * `C05_wI_valid` — in the `W = I` branch every returned sequence is `Valid` (all three clauses).
 So every C05 failure of kind zero / wrong comes from the two unverified `return`s
 (`vNeIFallback`, `vILast`) or from `_bfs_case3`.
